@@ -152,7 +152,20 @@ func VerifyAuthRulesAtState(ctx context.Context, sp StateProvider, eventToVerify
 	if ctx.Err() != nil {
 		return fmt.Errorf("gomatrixserverlib.VerifyAuthRulesAtState: context cancelled: %w", ctx.Err())
 	}
-	if err := checkAllowedByAuthEvents(eventToVerify, roomState, nil, userIDForSender); err != nil {
+	// The event has to be allowed by the room state before it, whatever it
+	// lists as its auth events: an event that leaves, say, the power levels out
+	// of its auth_events must not be judged without them.
+	stateEvents := make([]PDU, 0, len(roomState))
+	for _, stateEvent := range roomState {
+		if stateEvent != nil && stateEvent.StateKey() != nil {
+			stateEvents = append(stateEvents, stateEvent)
+		}
+	}
+	stateAtEvent, err := NewAuthEvents(stateEvents)
+	if err == nil {
+		err = Allowed(eventToVerify, stateAtEvent, userIDForSender)
+	}
+	if err != nil {
 		return fmt.Errorf(
 			"gomatrixserverlib.VerifyAuthRulesAtState: event %s is not allowed at state %s : %w",
 			eventToVerify.EventID(), eventToVerify.EventID(), err,
